@@ -52,11 +52,14 @@ func InitRandom(rg *VP8Random, dithering float32) {
 // RandomBits2 returns a centered pseudo-random number with numBits amplitude,
 // scaled by the given amp. Matches C VP8RandomBits2.
 func RandomBits2(rg *VP8Random, numBits, amp int) int {
-	diff := int(rg.tab[rg.index1]) - int(rg.tab[rg.index2])
-	if diff < 0 {
-		diff += 1 << 31
+	// 64-bit arithmetic: the difference of two 31-bit table entries plus 2^31
+	// does not fit a 32-bit int (the module must build for 32-bit targets).
+	diff64 := int64(rg.tab[rg.index1]) - int64(rg.tab[rg.index2])
+	if diff64 < 0 {
+		diff64 += 1 << 31
 	}
-	rg.tab[rg.index1] = uint32(diff)
+	rg.tab[rg.index1] = uint32(diff64)
+	diff := int(int32(uint32(diff64)))
 	rg.index1++
 	if rg.index1 == vp8RandomTableSize {
 		rg.index1 = 0
